@@ -41,6 +41,14 @@ def config_text(cfg):
     return text, recs, slens
 
 
+def with_stop_state(text):
+    """the same terminals scanned in a state that ALSO expects STOP (S: '#' X | '#'): with consume_input off the STOP token is offered
+    next to the real ones, which is where a scanner shortcut could interfere"""
+    head, rest = text.split(";\n", 1)
+    alts = head[len("S: "):]
+    return 'S: HASH_ X_ | HASH_;\nX_: %s;\n' % alts + rest + 'HASH_: "#";\n'
+
+
 def _configs(tier, seed):
     p = PARAMS[tier]
     out = []
@@ -64,6 +72,8 @@ def _configs(tier, seed):
             cfg.append(dict(kind=kind, mlen=m, slen=r.randint(1, 3) if not m else m, prior=r.choice([5, 10, 10, 10, 15, 20]),
                             prefer=r.random() < 0.3, mark=r.choice(["none"] * 5 + ["finish", "nofinish"])))
         out.append({"cfg": cfg, "kw": r.random() < 0.3, "ic": r.random() < 0.15, "origin": "det" if k % 2 == 0 else "rand"})
+    # every configuration is also scanned in a state that expects STOP as well (every other exhaustive one, all random ones)
+    out += [dict(c, stop=True) for i, c in enumerate(out) if i % 2 == 0 or len(c["cfg"]) > 2]
     return out
 
 
@@ -71,6 +81,9 @@ def worker(job):
     from . import real
 
     text, recs, slens = config_text(job["cfg"])
+    stop = bool(job.get("stop"))
+    if stop:
+        text = with_stop_state(text)
     if job["kw"]:
         text += "KEYWORD: /\\w+/;\n"
     if job["ic"]:
@@ -99,7 +112,9 @@ def worker(job):
         except Exception as e:  # noqa: BLE001
             out.append({"skip": "build %s: %s" % (type(e).__name__, str(e)[:80])})
             continue
-        st = parser.table.states[0]
+        INP = ("# " + INPUT) if stop else INPUT
+        POS = 2 if stop else 0
+        st = parser.table.states[0] if not stop else [x for x in parser.table.states if x.symbol.name == "HASH_"][0]
         keys = [k for k in st.actions if k.name not in ("EMPTY",)]
         names_sorted = sorted(k.name for k in keys)
         terms = []
@@ -107,7 +122,7 @@ def worker(job):
             rec = k.recognizer
             m = None
             try:
-                m = rec(INPUT, 0)
+                m = rec(INP, POS)
             except TypeError:
                 m = None
             tkind = "kw" if k.keyword else "str" if type(rec).__name__ == "StringRecognizer" else "re" if type(rec).__name__ == "RegExRecognizer" else "custom"
@@ -119,19 +134,24 @@ def worker(job):
         obs = {"kind": "exc", "toks": [], "vlen": 0}
         try:
             with real.guard(5), real.quiet():
-                r = parser.parse(INPUT)
+                r = parser.parse(INP)
+
+            def leaves(n):
+                return [n] if n.is_term() else [x for c in n for x in leaves(c)]
+
+            def scanned(tree):
+                ls = leaves(tree)
+                if not stop:
+                    return ls[0]
+                return ls[1] if len(ls) > 1 else None      # None: the STOP token was taken (S: '#')
             if kind == "lr":
-                leaf = r
-                while not leaf.is_term():
-                    leaf = list(leaf)[0]
-                obs = {"kind": "token", "toks": [leaf.symbol.name], "vlen": len(leaf.value)}
+                leaf = scanned(r)
+                obs = {"kind": "token", "toks": [leaf.symbol.name], "vlen": len(leaf.value)} if leaf is not None else {"kind": "stop", "toks": ["STOP"], "vlen": 0}
             else:
                 toks = set()
                 for t in r:
-                    leaf = t
-                    while not leaf.is_term():
-                        leaf = list(leaf)[0]
-                    toks.add(leaf.symbol.name)
+                    leaf = scanned(t)
+                    toks.add(leaf.symbol.name if leaf is not None else "STOP")
                 obs = {"kind": "forks", "toks": sorted(toks), "vlen": 0}
         except real.parglare.exceptions.DisambiguationError as e:
             obs = {"kind": "disamb", "toks": sorted(t.symbol.name for t in e.tokens), "vlen": 0}
@@ -140,9 +160,9 @@ def worker(job):
         except Exception as e:  # noqa: BLE001
             obs = {"kind": "exc:" + type(e).__name__, "toks": [], "vlen": 0}
         out.append({"name": "%s [%s,ld=%d%s%s] @ %r" % (text.replace("\n", " ").strip(), kind, ld, ",ignore_case" if job["ic"] else "",
-                                                           ",table=precomputed" if parser is not pre and kind == "glr" and not ld else "", INPUT),
+                                                           (",table=precomputed" if parser is not pre and kind == "glr" and not ld else "") + (",state-expecting-STOP" if stop else ""), INP),
                     "gtext": text, "recs": recs, "ic": job["ic"], "parser": kind, "ld": ld, "origin": job["origin"],
-                    "terms": terms, "real_order": [k.name for k in keys], "real_flags": flags, "obs": obs})
+                    "terms": terms, "real_order": [k.name for k in keys], "real_flags": flags, "obs": obs, "stop": stop})
     return out
 
 
